@@ -73,7 +73,8 @@ Step ==
       viol == MonCheck(Layout, mon, obs)
       s3 == Drive(Flat, Drive(Flat, s1, "clk" :> VSl(1)), "clk" :> VSl(0))
       m2 == MonStep(Layout, mon, obs)
-      ports == [a \in DOMAIN Layout |-> LET v == s3.sig[PortOf[a]].v IN IF Len(v) = 32 THEN v ELSE Zeros(16) \o v]
+      \* registers that are routed to an output port (a register without port is observed through reads only)
+      ports == [a \in {x \in DOMAIN Layout : PortOf[x] # ""} |-> LET v == s3.sig[PortOf[a]].v IN IF Len(v) = 32 THEN v ELSE Zeros(16) \o v]
       ms2 == [aw |-> IF obs.awv = 1 /\ obs.awr = 1 THEN Idle.aw ELSE ms.aw,
               w |-> IF obs.wv = 1 /\ obs.wr = 1 THEN Idle.w ELSE ms.w,
               ar |-> IF obs.arv = 1 /\ obs.arr = 1 THEN Idle.ar ELSE ms.ar]
